@@ -348,12 +348,21 @@ func discoverNames(l *Loaded) *renameSet {
 					rs.add(f, "keys")
 				}
 			}
+			// clear(): the only method without parameters and results, or the one already so called
+			var noArg []*types.Func
+			for _, mf := range methodsOf(named) {
+				if sg := sigOf(mf); sg.Params().Len() == 0 && sg.Results().Len() == 0 {
+					noArg = append(noArg, mf)
+				}
+			}
 			for _, mf := range methodsOf(named) {
 				sg := sigOf(mf)
 				p, r := sg.Params(), sg.Results()
 				switch {
 				case p.Len() == 0 && r.Len() == 0:
-					rs.add(mf, "clear")
+					if len(noArg) == 1 {
+						rs.add(mf, "clear")
+					}
 				case p.Len() == 3 && ptrTo(p.At(0).Type(), refT) && isByteT(p.At(1).Type()) && sameNamed(p.At(2).Type(), refT) && r.Len() == 0:
 					rs.add(mf, "addChild")
 				case p.Len() == 2 && ptrTo(p.At(0).Type(), refT) && isByteT(p.At(1).Type()) && r.Len() == 0:
